@@ -253,6 +253,34 @@ pub fn coset_table(
         }
     }
 
+    // Entries that were filled in by a deduction rather than a definition
+    // never had the relators starting there scanned. The table is complete
+    // now, so make sure that every relator closes at every row and every
+    // subgroup generator at row 0, merging rows where one does not.
+    loop {
+        let mut changed = false;
+
+        for i in 0..table.len() {
+            let words = relators.iter()
+                .chain(subgroup_gens.iter().filter(|_| i == 0));
+
+            for w in words {
+                let c = table.canon(i);
+                if w.len() > 0 {
+                    let (head, tail, gap, _) = scan_both_ways(&table, w, c);
+                    if gap == 0 && head != tail {
+                        table.merge(head, tail);
+                        changed = true;
+                    }
+                }
+            }
+        }
+
+        if !changed {
+            break;
+        }
+    }
+
     table.compact()
 }
 
